@@ -8,7 +8,8 @@ RULE = ("random container shapes (lists of lists, records of records, mixed, dep
         "writes through paths of length 1..4 (list positions and record keys mixed), pushes, pops and concatenations; "
         "after every step every alias is printed. Scalars are copied (checked by mutating the copy). Compared with the "
         "Lean model and the structured semantics (records up to entry order). Non-trivial: at least two aliases of one "
-        "container and one write through a path of length >= 2.")
+        "container and one write through a path of length >= 2."
+        ' Key-spelling family: look-alike record keys (precomposed vs letter + nukta, with / without zero-width joiner, Bangla vs ASCII digit, trailing blank, letter case) are different keys on every write / read path.')
 ASSUMPTIONS = ["record entry order is unspecified; outputs are matched up to permutation of entries"]
 default_compare = lambda m, i: C.compare_run(m, i)
 KEYS = ["k", "চ", "z"]
@@ -296,6 +297,35 @@ def index_boundary_family(tier="quick"):
             out.append(prog_case("index-boundary", prog, info={"index": vn, "op": op}))
     return out
 
+def key_spelling_family():
+    """record keys are compared code point by code point: two keys that render alike (precomposed য় ড় ঢ় vs letter + nukta,
+    a conjunct with / without a zero-width joiner, Bangla vs ASCII digit, trailing blank) are different keys on every path
+    (literal, read, indexed write at the top level and through a nested path, key listing by printing) and through aliases"""
+    NUKTA, ZWJ, ZWNJ, YYA, RRA, RHA = "\u09bc", "\u200d", "\u200c", "\u09df", "\u09dc", "\u09dd"
+    pairs = [("আ" + YYA, "আয" + NUKTA), ("ব" + RRA, "বড" + NUKTA), ("গা" + RHA, "গাঢ" + NUKTA), ("র" + ZWJ + "্যাংক", "র্যাংক"),
+             ("শ" + ZWNJ + "ক্ত", "শক্ত"), ("১", "1"), ("ক", "ক "), ("Key", "key"), ("\u00e9", "e\u0301")]
+    out = []
+    for a, b in pairs:
+        for first, second in ((a, b), (b, a)):
+            for how in ("top", "nested", "alias", "fresh-key"):
+                prog = [("decl", "খাতা", G.rec((G.s(first), G.num(100)), (G.s("অন্য"), G.num(40)))), ("decl", "নকল", G.var("খাতা")),
+                        ("decl", "তাক", G.lst(G.rec((G.s(first), G.num(1))), G.num(7))), ("print", G.var("খাতা"))]
+                if how == "top":
+                    prog += [("assign", "খাতা", [G.s(first)], G.num(250)), ("print", G.idx(G.var("খাতা"), G.s(first))),
+                             ("assign", "খাতা", [G.s(second)], G.num(7)), ("print", G.idx(G.var("খাতা"), G.s(first))), ("print", G.idx(G.var("খাতা"), G.s(second)))]
+                elif how == "nested":
+                    prog += [("assign", "তাক", [G.num(0), G.s(first)], G.num(2)), ("print", G.var("তাক")),
+                             ("assign", "তাক", [G.num(0), G.s(second)], G.num(3)), ("print", G.var("তাক")), ("print", G.idx(G.idx(G.var("তাক"), G.num(0)), G.s(first)))]
+                elif how == "alias":
+                    prog += [("assign", "নকল", [G.s(first)], G.num(9)), ("print", G.idx(G.var("খাতা"), G.s(first))),
+                             ("assign", "নকল", [G.s(second)], G.num(8)), ("print", G.var("খাতা"))]
+                else:
+                    prog += [("decl", "ফাঁকা", G.rec()), ("assign", "ফাঁকা", [G.s(first)], G.s("প্রথম")), ("print", G.idx(G.var("ফাঁকা"), G.s(first))),
+                             ("print", G.var("ফাঁকা")), ("print", G.idx(G.var("ফাঁকা"), G.s(second))), ("print", G.s("পৌঁছানো উচিত না"))]
+                prog += [("print", G.var("খাতা")), ("print", G.var("নকল")), ("print", G.bin_("==", G.s(first), G.s(second)))]
+                out.append(prog_case("key-spelling", prog, info={"first": first, "second": second, "how": how}))
+    return out
+
 def cases(rng, tier, stats):
     out = []
     n = 15000 if tier == "thorough" else 600
@@ -387,4 +417,7 @@ def cases(rng, tier, stats):
     ib = index_boundary_family(tier)
     out += ib
     stats["index_boundary"] = len(ib)
+    ks = key_spelling_family()
+    out += ks
+    stats["key_spelling_family"] = len(ks)
     return out
